@@ -82,6 +82,11 @@ ValOf(x) == LET i == CHOOSE i \in 1..Len(hist) : hist[i].v = x IN hist[i].val
 
 (* AddAnyway (op "addw") is the ordinary add that sleeps and retries while the lane is full: it is  *)
 (* the same action, enabled only when it returns (lane not full, or queue closed)                *)
+(* The sync queue's Pop / TryPop hand out the item itself and report "closed" as a nil item: an   *)
+(* untyped nil item (value class -1) that comes out is therefore read by the caller - and logged - *)
+(* exactly like the closed report.  The item is consumed all the same.                            *)
+ItemR(x) == IF kind = "syncq" /\ ValOf(x) = -1 THEN R("closed", 0) ELSE R("item", ValOf(x))
+
 AsAdd(a) == [op |-> "add", lane |-> a.lane, prior |-> FALSE, v |-> a.v, val |-> a.val]
 Norm(a)  == IF a.op = "addw" THEN AsAdd(a) ELSE a
 IsAdd(a) == a.op \in {"add", "addw"}
@@ -97,9 +102,9 @@ Replies(a) ==
   CASE a.op = "add"  -> AddReplies(a)
     [] a.op = "addw" -> AddReplies(AsAdd(a))
     [] a.op = "pop" ->
-         IF PopTakes(a) THEN {R("item", ValOf(Front))} ELSE {R("closed", 0)}
+         IF PopTakes(a) THEN {ItemR(Front)} ELSE {R("closed", 0)}
     [] a.op = "trypop" ->
-         IF ~Empty THEN {R("item", ValOf(Front))} ELSE IF closed THEN {R("closed", 0)} ELSE {R("empty", 0)}
+         IF ~Empty THEN {ItemR(Front)} ELSE IF closed THEN {R("closed", 0)} ELSE {R("empty", 0)}
     [] a.op = "close" -> {Ok}
     [] a.op = "tryclose" ->
          \* succeeds exactly when empty; already closed with residue: the property is silent
